@@ -68,8 +68,10 @@ def replay_history(pool, beh):
     return None
 
 
-def random_history(rng):
-    """leg B: random schemas, random add_schema history; compare with fresh re-rooted copies built through the API"""
+def random_history(rng, events=None, recipes=None):
+    """leg B: random schemas, random add_schema history; compare with fresh re-rooted copies built through the API; the
+    judgement of the assembled schema is ALSO recorded as a validate event (rules = the re-rooted recipes in stable
+    path-length order) to be judged by the specification (Trace_Rule), not only against the library itself"""
     import valida
     import valida.datapath as dp
 
@@ -102,6 +104,17 @@ def random_history(rng):
             b = outcome_of(lambda: _sig(fresh.validate(probe)))
             if a != b:
                 return ("JudgementIsOldPlusReRooted", f"{a} vs fresh {b}", doc)
+        if events is not None and expect[s]:
+            order = sorted(range(len(expect[s])), key=lambda j: len(expect[s][j]["rparts"]))      # stable, as Schema sorts
+            rrs = [expect[s][j] for j in order]
+            try:
+                e = ruledrv.validate_event(len(events) + 1, rrs, doc,
+                                           shared={"rules": list(schemas[s].rules), "schema": schemas[s]})
+                events.append(e)
+                recipes[e["id"]] = {"op": "validate", "rules": [ruledrv.lit_rule(r) for r in rrs], "doc": to_lit(doc),
+                                    "note": "schema assembled by a random add_schema history"}
+            except (Unencodable, TypeError, ValueError):
+                pass
     return None
 
 
@@ -138,24 +151,29 @@ def run(rep, tier, seed):
     rep.sample({"history": [(s["s"], s["t"], s["r"]) for s in behs[0]["steps"]]})
     rng = random.Random(seed + 18)
     nb = 300 if tier == "quick" else 10000
+    events, recipes = [], {}
     for k in range(nb):
         try:
-            bad = random_history(rng)
+            bad = random_history(rng, events, recipes)
         except (Unencodable, TypeError, ValueError):
             continue
         if bad:
             rep.reject({"clause": bad[0], "leg": "B"}, {"kind": "random", "detail": bad[1], "doc": to_lit(bad[2]), "index": k})
         rep.note_case("rand%d" % k)
     rep.traces += nb
+    ruledrv.judge(rep, events, recipes, lambda m, e: {"clause": m["clause"], "leg": "B", "op": e["op"], "outcome": e["outcome"]})
+    rep.extra["spec_judged_validations"] = len(events)
     rep.rule = (f"leg C: all {len(behs)} histories of add_schema calls over 4 schemas (one with the empty-path rule and a cast "
                 "rule, one with a fan-out path) x 3 roots (a key, a two-part path, a fan-out part) x 6 documents, replayed on "
                 "real objects; leg B: seeded random histories of <= 8 additions over <= 4 random schemas compared with fresh "
-                "schemas built from re-rooted copies")
+                "schemas built from re-rooted copies, and judged by the specification (Trace_Rule) after every addition")
     rep.exhaustive = True
 
 
 def replay(rep, case):
     c = case["case"]
+    if "recipe" in c:                     # a spec-judged validation of leg B: the schema is rebuilt from its rule recipes
+        return ruledrv.replay(rep, case)
     if c.get("kind") == "history":
         bad = replay_history(c["pool"], c["behaviour"])
         if bad:
